@@ -9,7 +9,6 @@ import (
 	"path/filepath"
 	"runtime"
 	"sort"
-	"strings"
 	"sync/atomic"
 	"testing"
 	"testing/synctest"
@@ -89,18 +88,18 @@ type v1run struct {
 	exited   atomic.Bool
 	rounds   atomic.Int64
 
-	stopReq, cancelReq, graceReq       bool
-	stopRet, graceRet                  atomic.Bool
-	stopRetLogged, graceRetLogged      bool
-	pendingCtl                         atomic.Int32
-	addRm                              atomic.Int32
-	ctlDone                            chan obs
-	addsLeft                           [][2]int
-	rmvsLeft                           []int
-	divCalls, faultAt                  int
-	faultKind                          string
-	faultBad                           bool
-	sawErrBad                          bool
+	stopReq, cancelReq, graceReq  bool
+	stopRet, graceRet             atomic.Bool
+	stopRetLogged, graceRetLogged bool
+	pendingCtl                    atomic.Int32
+	addRm                         atomic.Int32
+	ctlDone                       chan obs
+	addsLeft                      [][2]int
+	rmvsLeft                      []int
+	divCalls, faultAt             int
+	faultKind                     string
+	faultBad                      bool
+	sawErrBad                     bool
 }
 
 func (r *v1run) emit(o any) { r.log = append(r.log, o) }
@@ -491,10 +490,9 @@ func (r *v1run) drainErr() {
 				r.emit(obs{E: "EC"})
 				return
 			}
-			note := "nil"
+			note := errNote(err)
 			if err != nil {
-				note = err.Error()
-				if strings.Contains(note, "incorrect distribution") {
+				if note == "ErrDividerBad" {
 					r.sawErrBad = true
 				}
 			}
